@@ -91,7 +91,7 @@ fn idx(n: &std::sync::Arc<scylla::cluster::Node>) -> usize {
 }
 
 /// Examine every view of `replicas_for_token(token, strategy, dc)`; returns (view, complaint) pairs.
-fn examine(tally: &mut Tally, loc: &ReplicaLocator, strategy: &Strategy, token: Token, dc: Option<&str>, want: &[usize], demand: Demand) -> Vec<(&'static str, String)> {
+fn examine(tally: &mut Tally, loc: &ReplicaLocator, strategy: &Strategy, token: Token, dc: Option<&str>, want: &[usize], demand: Demand, cap: usize) -> Vec<(&'static str, String)> {
     let mut bad: Vec<(&'static str, String)> = Vec::new();
     tally.sets_examined += 1;
     let fresh = || loc.replicas_for_token(token, strategy, dc, &TABLE);
@@ -100,12 +100,17 @@ fn examine(tally: &mut Tally, loc: &ReplicaLocator, strategy: &Strategy, token: 
     let got = catch(AssertUnwindSafe(|| {
         let len = fresh().len();
         let empty = fresh().is_empty();
-        let iter: Vec<usize> = fresh().into_iter().map(|(n, _)| idx(n)).collect();
-        let ordered: Vec<usize> = fresh().into_replicas_ordered().into_iter().map(|(n, _)| idx(n)).collect();
-        (len, empty, iter, ordered)
+        // nothing here is sized by a number the driver reports: no collect() (it pre-allocates by size_hint), capped drains
+        let (iter, endless_a) = topo::drain_capped(fresh().into_iter().map(|(n, _)| idx(n)), cap);
+        let (ordered, endless_b) = topo::drain_capped(fresh().into_replicas_ordered().into_iter().map(|(n, _)| idx(n)), cap);
+        (len, empty, iter, ordered, endless_a || endless_b)
     }));
     let (len, empty, iter, ordered) = match got {
-        Ok(x) => x,
+        Ok((_, _, iter, ordered, true)) => {
+            bad.push(("iter-endless", format!("iteration / ring-ordered view yields more than {cap} elements for a cluster this small (first ones {:?} / {:?})", &iter[..iter.len().min(8)], &ordered[..ordered.len().min(8)])));
+            return bad;
+        }
+        Ok((a, b, c, d, false)) => (a, b, c, d),
         Err(p) => {
             bad.push(("panic", format!("len/iteration/ordered view panicked at {}: {p}", vcore::last_panic_location())));
             return bad;
@@ -151,7 +156,7 @@ fn examine(tally: &mut Tally, loc: &ReplicaLocator, strategy: &Strategy, token: 
                 if lo > left || hi.is_some_and(|h| h < left) {
                     return Some(format!("[contract] size_hint() after {k} elements is ({lo}, {hi:?}) but {left} elements follow (iteration {iter:?})"));
                 }
-                let rest: Vec<usize> = it.clone().map(|(n, _)| idx(n)).collect();
+                let rest: Vec<usize> = topo::drain_capped(it.clone().map(|(n, _)| idx(n)), cap).0;
                 if rest != iter[k..] {
                     return Some(format!("[contract] a clone taken after {k} elements yields {rest:?}, the iteration continues with {:?}", &iter[k..]));
                 }
@@ -163,7 +168,7 @@ fn examine(tally: &mut Tally, loc: &ReplicaLocator, strategy: &Strategy, token: 
                 it.next();
                 ord.next();
             }
-            let (cnt, last) = (fresh().into_iter().count(), fresh().into_iter().last().map(|(n, _)| idx(n)));
+            let (cnt, last) = (fresh().into_iter().take(cap + 1).count(), fresh().into_iter().take(cap + 1).last().map(|(n, _)| idx(n)));
             if cnt != iter.len() || last != iter.last().copied() {
                 return Some(format!("[contract] count() = {cnt}, last() = {last:?}; iteration {iter:?}"));
             }
@@ -193,8 +198,9 @@ fn examine(tally: &mut Tally, loc: &ReplicaLocator, strategy: &Strategy, token: 
     let choose = catch(AssertUnwindSafe(|| {
         let mut complaints = Vec::new();
         let mut picked: Vec<usize> = Vec::new();
-        for i in 0..len.max(1) {
-            let mut rng = ScriptedRng::new(vec![ScriptedRng::word_for(i, len.max(1))]);
+        // loop bound: what the iteration showed, never the reported len() (a wrong len() is reported above, not followed)
+        for i in 0..iter.len().max(1) {
+            let mut rng = ScriptedRng::new(vec![ScriptedRng::word_for(i.min(len.saturating_sub(1)), len.max(1))]);
             match fresh().choose_filtered(&mut rng, |_| true) {
                 Some((n, _)) => picked.push(idx(n)),
                 None if iter.is_empty() => {}
@@ -292,6 +298,7 @@ fn run_topology(env: &Env, c: &Concrete, absent_dc: &str, topo_rank: u64, p: &Pa
     let ring = c.ring();
     let dup = ring.duplicate_tokens();
     let dup_dc = ring.duplicate_tokens_within_a_dc();
+    let cap = topo::node_cap(ring.nodes.len());
     let mut strats = topo::strategies(c, absent_dc, &p.family);
     if p.huge_rf {
         const HUGE: usize = i32::MAX as usize;
@@ -339,7 +346,7 @@ fn run_topology(env: &Env, c: &Concrete, absent_dc: &str, topo_rank: u64, p: &Pa
             if !dup {
                 for t in ring.query_tokens(false) {
                     let owner = loc.ring().get_elem_for_token(Token::new(t)).map(idx);
-                    let walk: Vec<usize> = loc.ring().ring_range(Token::new(t)).map(idx).collect();
+                    let walk: Vec<usize> = topo::drain_capped(loc.ring().ring_range(Token::new(t)).map(idx), topo::node_cap(ring.entries.len())).0;
                     if owner != ring.walk(t).first().copied() || walk != ring.walk(t) {
                         env.sink.report("ring:walk", topo_rank << 24, || (format!("ring().get_elem_for_token({t}) = {owner:?}, ring_range = {walk:?}; clockwise from {t} the ring is {:?}", ring.walk(t)), case_json(c, absent_dc, &Strat::Local, t, p)));
                     }
@@ -419,7 +426,7 @@ fn run_topology(env: &Env, c: &Concrete, absent_dc: &str, topo_rank: u64, p: &Pa
                 queries.push((Some(dc.as_str()), ring.replicas_ring_order_in_dc(tv, s, dc), d));
             }
             for (dc, want, d) in &queries {
-                let otf_bad = examine(&mut tally, clusters.otf.replica_locator(), &strategy, token, *dc, want, *d);
+                let otf_bad = examine(&mut tally, clusters.otf.replica_locator(), &strategy, token, *dc, want, *d, cap);
                 let otf_views: BTreeSet<&str> = otf_bad.iter().map(|b| b.0).collect();
                 for (view, text) in &otf_bad {
                     report("on-the-fly", *dc, view, text.clone(), false);
@@ -430,7 +437,7 @@ fn run_topology(env: &Env, c: &Concrete, absent_dc: &str, topo_rank: u64, p: &Pa
                 }
                 let d2 = Demand { reject: false, ..*d }; // the rejecting-predicate path does not depend on precomputation
                 for (path, cl) in others {
-                    for (view, text) in examine(&mut tally, cl.replica_locator(), &strategy, token, *dc, want, d2) {
+                    for (view, text) in examine(&mut tally, cl.replica_locator(), &strategy, token, *dc, want, d2, cap) {
                         report(path, *dc, view, text, !otf_views.contains(view));
                     }
                 }
@@ -503,7 +510,7 @@ fn replay(env: &Env, case: &Value) {
                     for dc in &dcs {
                         let got = catch(AssertUnwindSafe(|| {
                             let f = || st.replica_locator().replicas_for_token(Token::new(tok), &strategy, dc.as_deref(), &TABLE);
-                            (f().len(), f().into_iter().map(|(n, _)| idx(n)).collect::<Vec<_>>(), f().into_replicas_ordered().into_iter().map(|(n, _)| idx(n)).collect::<Vec<_>>())
+                            (f().len(), topo::drain_capped(f().into_iter().map(|(n, _)| idx(n)), topo::node_cap(ring.nodes.len())).0, topo::drain_capped(f().into_replicas_ordered().into_iter().map(|(n, _)| idx(n)), topo::node_cap(ring.nodes.len())).0)
                         }));
                         println!("replay: [{name}] restricted to {dc:?}: (len, iteration, ring-ordered view) = {got:?}");
                     }
